@@ -5,6 +5,13 @@ package c29
 
 import (
 	"fmt"
+	"go/ast"
+	"go/parser"
+	"go/token"
+	"os"
+	"path/filepath"
+	"sort"
+	"strconv"
 	"strings"
 
 	"github.com/zmap/zcrypto/tls"
@@ -31,8 +38,187 @@ func run(repo string) (string, error) {
 	b.WriteString("def skxSigAlgs : List Nat := " + natList(sigs) + "\n")
 	b.WriteString("/-- ids of `implementedCipherSuites`, table order -/\n")
 	b.WriteString("def implementedSuites : List Nat := " + natList(suites) + "\n")
+	if err := astFacts(repo, &b); err != nil {
+		return "", err
+	}
 	b.WriteString("end ZV.C29.Gen\n")
 	return b.String(), nil
+}
+
+// exprStr renders a (simple) type expression as Go source.
+func exprStr(e ast.Expr) string {
+	switch t := e.(type) {
+	case *ast.Ident:
+		return t.Name
+	case *ast.StarExpr:
+		return "*" + exprStr(t.X)
+	case *ast.ArrayType:
+		if t.Len == nil {
+			return "[]" + exprStr(t.Elt)
+		}
+		return "[...]" + exprStr(t.Elt)
+	case *ast.SelectorExpr:
+		return exprStr(t.X) + "." + t.Sel.Name
+	}
+	return fmt.Sprintf("%T", e)
+}
+
+// astFacts (go/ast over tls/*.go of the working tree, test and verif-hook files excluded):
+//   - extensionTypes: every type of package tls whose method set (pointer or value receiver) has the three methods
+//     of the ClientExtension interface (Marshal, CheckImplemented, WriteToConfig), in source order, each with its
+//     struct fields "Name type" — a new built-in extension type or a new field changes this list and the theorem
+//     `extension_types_accounted` fails until the model follows;
+//   - clientExtensionMethods: the method names of the ClientExtension interface itself;
+//   - extConsts: the integer constants `extension*` and `pointFormatUncompressed` of tls/common.go;
+//   - supportedVersions: the table of tls/common.go (elements resolved through the package constants).
+func astFacts(repo string, b *strings.Builder) error {
+	dir := filepath.Join(repo, "tls")
+	ents, err := os.ReadDir(dir)
+	if err != nil {
+		return err
+	}
+	fset := token.NewFileSet()
+	type tinfo struct {
+		file   string
+		pos    token.Pos
+		fields []string
+		isStr  bool
+	}
+	types := map[string]*tinfo{}
+	methods := map[string]map[string]bool{}
+	consts := map[string]int64{}
+	var constOrder []string
+	var ifaceMethods []string
+	var supVers []string
+	for _, e := range ents {
+		n := e.Name()
+		if !strings.HasSuffix(n, ".go") || strings.HasSuffix(n, "_test.go") || strings.HasSuffix(n, "_verif.go") {
+			continue
+		}
+		f, err := parser.ParseFile(fset, filepath.Join(dir, n), nil, 0)
+		if err != nil {
+			return err
+		}
+		for _, d := range f.Decls {
+			switch d := d.(type) {
+			case *ast.FuncDecl:
+				if d.Recv == nil || len(d.Recv.List) != 1 {
+					continue
+				}
+				rt := d.Recv.List[0].Type
+				if s, ok := rt.(*ast.StarExpr); ok {
+					rt = s.X
+				}
+				if id, ok := rt.(*ast.Ident); ok {
+					if methods[id.Name] == nil {
+						methods[id.Name] = map[string]bool{}
+					}
+					methods[id.Name][d.Name.Name] = true
+				}
+			case *ast.GenDecl:
+				for _, sp := range d.Specs {
+					switch sp := sp.(type) {
+					case *ast.TypeSpec:
+						ti := &tinfo{file: n, pos: sp.Pos()}
+						if st, ok := sp.Type.(*ast.StructType); ok {
+							ti.isStr = true
+							for _, fl := range st.Fields.List {
+								for _, nm := range fl.Names {
+									ti.fields = append(ti.fields, nm.Name+" "+exprStr(fl.Type))
+								}
+								if len(fl.Names) == 0 {
+									ti.fields = append(ti.fields, "(embedded) "+exprStr(fl.Type))
+								}
+							}
+						}
+						if it, ok := sp.Type.(*ast.InterfaceType); ok && sp.Name.Name == "ClientExtension" {
+							for _, m := range it.Methods.List {
+								for _, nm := range m.Names {
+									ifaceMethods = append(ifaceMethods, nm.Name)
+								}
+							}
+						}
+						types[sp.Name.Name] = ti
+					case *ast.ValueSpec:
+						for i, nm := range sp.Names {
+							if i < len(sp.Values) {
+								if lit, ok := sp.Values[i].(*ast.BasicLit); ok && lit.Kind == token.INT && d.Tok == token.CONST {
+									if v, err := strconv.ParseInt(lit.Value, 0, 64); err == nil {
+										consts[nm.Name] = v
+										constOrder = append(constOrder, nm.Name)
+									}
+								}
+								if nm.Name == "supportedVersions" && d.Tok == token.VAR {
+									if cl, ok := sp.Values[i].(*ast.CompositeLit); ok {
+										for _, el := range cl.Elts {
+											supVers = append(supVers, exprStr(el))
+										}
+									}
+								}
+							}
+						}
+					}
+				}
+			}
+		}
+	}
+	sort.Strings(ifaceMethods)
+	if len(ifaceMethods) == 0 {
+		return fmt.Errorf("c29 extractor: interface ClientExtension not found")
+	}
+	var names []string
+	for name, ms := range methods {
+		all := true
+		for _, m := range ifaceMethods {
+			if !ms[m] {
+				all = false
+			}
+		}
+		if all && types[name] != nil {
+			names = append(names, name)
+		}
+	}
+	sort.Slice(names, func(i, j int) bool {
+		a, c := types[names[i]], types[names[j]]
+		if a.file != c.file {
+			return a.file < c.file
+		}
+		return a.pos < c.pos
+	})
+	var items, ims []string
+	for _, n := range names {
+		var fs []string
+		for _, f := range types[n].fields {
+			fs = append(fs, zvx.LeanStr(f))
+		}
+		items = append(items, "("+zvx.LeanStr(types[n].file+":"+n)+", ["+strings.Join(fs, ", ")+"])")
+	}
+	for _, m := range ifaceMethods {
+		ims = append(ims, zvx.LeanStr(m))
+	}
+	b.WriteString("/-- methods of `interface ClientExtension` (tls/handshake_client.go), sorted -/\n")
+	b.WriteString("def clientExtensionMethods : List String := [" + strings.Join(ims, ", ") + "]\n")
+	b.WriteString("/-- go/ast: every type of package tls implementing ClientExtension (`file:Type`, struct fields), source order -/\n")
+	b.WriteString("def extensionTypes : List (String × List String) := " + zvx.LeanList(items) + "\n")
+	var cs []string
+	for _, n := range constOrder {
+		if strings.HasPrefix(n, "extension") || n == "pointFormatUncompressed" {
+			cs = append(cs, "("+zvx.LeanStr(n)+", "+strconv.FormatInt(consts[n], 10)+")")
+		}
+	}
+	b.WriteString("/-- go/ast: integer constants `extension*` / `pointFormatUncompressed` of package tls, source order -/\n")
+	b.WriteString("def extConsts : List (String × Nat) := " + zvx.LeanList(cs) + "\n")
+	var sv []string
+	for _, e := range supVers {
+		v, ok := consts[e]
+		if !ok {
+			return fmt.Errorf("c29 extractor: supportedVersions element %s is not an integer constant", e)
+		}
+		sv = append(sv, strconv.FormatInt(v, 10))
+	}
+	b.WriteString("/-- go/ast: `supportedVersions` of tls/common.go, table order -/\n")
+	b.WriteString("def supportedVersions : List Nat := [" + strings.Join(sv, ", ") + "]\n")
+	return nil
 }
 
 func init() { zvx.Register(zvx.Extractor{Name: "C29", Run: run}) }
